@@ -187,10 +187,10 @@ def space(tier):
             parts.append(Tagged("sched", Product([tname], [(1,) * k], [d], power([0, 1, 2], d * k), power(BOUNDS_MENU, d), ["none", "pos", "mem111"])))
     # (c) matmul family: standard maps under every dim permutation, with single-entry perturbations and an optional batch dim
     if th:
-        parts.append(Tagged("mm", Product(["mm222", "mm2N2"], perms(3), range(37), power(BOUNDS_MENU, 3), ["none", "pos", "pos+mem888", "mem111", "ocs"], [0, 1])))
+        parts.append(Tagged("mm", Product(["mm222", "mm2N2"], perms(3), range(55), power(BOUNDS_MENU, 3), ["none", "pos", "pos+mem888", "mem111", "ocs"], [0, 1])))
     else:
-        parts.append(Tagged("mm", Product(["mm222", "mm2N2"], perms(3), range(37), power([1, 2, 4, 5], 3), ["none", "pos+mem888", "ocs"], [0])))
-        parts.append(Tagged("mm", Product(["mm222", "mm2N2"], perms(3), [0, 5, 20], power([1, 2, 4], 3), ["pos", "mem111"], [0, 1])))
+        parts.append(Tagged("mm", Product(["mm222", "mm2N2"], perms(3), range(55), power([1, 2, 4, 5], 3), ["none", "pos+mem888", "ocs"], [0])))
+        parts.append(Tagged("mm", Product(["mm222", "mm2N2"], perms(3), [0, 7, 30, 42, 45, 51, 54], power([1, 2, 4], 3), ["pos", "mem111"], [0, 1])))
     # (d) broadcast-row and rank-mismatch templates: two operands (2 rows, 1 or 2 rows), d = 2,3
     for tname, rows in (("bcast", (2, 1)), ("rankmis", (2, 2))):
         for d in (2, 3):
@@ -247,13 +247,13 @@ def build_schedule(rows, d, flat, bounds):
 
 def build_mm(perm, pert, bounds, batch):
     mats = [np.array(m, dtype=np.int_) for m in MM]
-    # single-entry perturbation: index 0 = none; 1..36: entry (operand, row, col) set to 0/2
+    # single-entry perturbation: index 0 = none; 1..54: entry (operand, row, col) set to 0 / 2 / -1 (a reversed walk)
     if pert:
         k = pert - 1
-        o, rest = divmod(k, 12)
-        e, v = divmod(rest, 2)
+        o, rest = divmod(k, 18)
+        e, v = divmod(rest, 3)
         rr, cc = divmod(e, 3)
-        mats[o][rr][cc] = 2 if v else 0
+        mats[o][rr][cc] = (0, 2, -1)[v]
     mats = [m[:, list(perm)] for m in mats]
     bs = tuple(bounds[i] for i in perm)
     if batch:
